@@ -33,6 +33,8 @@ pub enum Handle {
     StreamStdinWithStdoutPipe,
     PipeStreamStdoutWithStdinPipe,
     PipeStreamStdinWithStdoutPipe,
+    /// the first command of the pipeline was given a stderr pipe of its own
+    PipeStreamStdoutMemberErrPipe,
 }
 
 #[derive(Clone, Copy, Debug, PartialEq, Serialize, Deserialize)]
@@ -260,10 +262,11 @@ fn run_case_inner(case: DropCase, helper: std::path::PathBuf, markers: std::path
                 drop(w);
             }
         },
-        Handle::PipeJoin | Handle::PipeCapture | Handle::PipeStreamStdout | Handle::PipeStreamStdin | Handle::PipeStreamStdoutWithStdinPipe | Handle::PipeStreamStdinWithStdoutPipe => {
+        Handle::PipeJoin | Handle::PipeCapture | Handle::PipeStreamStdout | Handle::PipeStreamStdin | Handle::PipeStreamStdoutWithStdinPipe | Handle::PipeStreamStdinWithStdoutPipe | Handle::PipeStreamStdoutMemberErrPipe => {
             let mut cmds = vec![];
             let first = match case.handle {
                 Handle::PipeStreamStdin | Handle::PipeStreamStdinWithStdoutPipe | Handle::PipeStreamStdoutWithStdinPipe => filter_cmd(&helper, 0, case.stage_delay_ms, &markers),
+                Handle::PipeStreamStdoutMemberErrPipe => child_cmd(&helper, case.behaviour, 2, 0).stderr(Redirection::Pipe),
                 _ => child_cmd(&helper, case.behaviour, 1, 0),
             };
             cmds.push(first);
@@ -280,6 +283,13 @@ fn run_case_inner(case: DropCase, helper: std::path::PathBuf, markers: std::path
                 Handle::PipeCapture => match p.stdin(NullFile).capture() {
                     Err(e) => ran.error = Some(err(e)),
                     Ok(c) => ran.bytes = c.stdout.len(),
+                },
+                Handle::PipeStreamStdoutMemberErrPipe => match p.stdin(NullFile).stream_stdout() {
+                    Err(e) => ran.error = Some(err(e)),
+                    Ok(r) => {
+                        // the first command may be stuck writing to its own stderr pipe: no reading
+                        drop(r);
+                    }
                 },
                 Handle::PipeStreamStdoutWithStdinPipe => match p.stdin(Redirection::Pipe).stream_stdout() {
                     Err(e) => ran.error = Some(err(e)),
@@ -333,7 +343,7 @@ fn pending_class(case: &DropCase) -> Option<String> {
     };
     let unread = unread || hidden;
     let unwritten = matches!((case.handle, case.behaviour), (Handle::StreamStdin | Handle::PipeStreamStdin | Handle::PopenPlain, Behaviour::ReadToEof));
-    let hidden_pipeline = matches!(case.handle, Handle::PipeStreamStdoutWithStdinPipe | Handle::PipeStreamStdinWithStdoutPipe);
+    let hidden_pipeline = matches!(case.handle, Handle::PipeStreamStdoutWithStdinPipe | Handle::PipeStreamStdinWithStdoutPipe | Handle::PipeStreamStdoutMemberErrPipe);
     let unread = unread || hidden_pipeline;
     let outlive = matches!(case.handle, Handle::PipeJoin | Handle::PipeCapture | Handle::PipeStreamStdout | Handle::PipeStreamStdin) && case.stage_delay_ms > 0;
     let detached = matches!(case.handle, Handle::PopenDetachedCfg | Handle::PopenDetachCall);
@@ -429,7 +439,7 @@ pub fn case_strategy() -> impl Strategy<Value = DropCase> {
         2 => Just(Handle::PopenPlain), 1 => Just(Handle::PopenDetachedCfg), 1 => Just(Handle::PopenDetachCall), 1 => Just(Handle::ExecJoin), 2 => Just(Handle::ExecCapture),
         3 => Just(Handle::StreamStdout), 3 => Just(Handle::StreamStderr), 2 => Just(Handle::StreamStdin),
         1 => Just(Handle::StreamStdoutWithStdinPipe), 1 => Just(Handle::StreamStdoutWithStderrPipe), 1 => Just(Handle::StreamStdinWithStdoutPipe),
-        1 => Just(Handle::PipeStreamStdoutWithStdinPipe), 1 => Just(Handle::PipeStreamStdinWithStdoutPipe),
+        1 => Just(Handle::PipeStreamStdoutWithStdinPipe), 1 => Just(Handle::PipeStreamStdinWithStdoutPipe), 1 => Just(Handle::PipeStreamStdoutMemberErrPipe),
         1 => Just(Handle::PipeJoin), 2 => Just(Handle::PipeCapture), 3 => Just(Handle::PipeStreamStdout), 2 => Just(Handle::PipeStreamStdin)
     ];
     let behaviour = prop_oneof![
@@ -442,12 +452,12 @@ pub fn case_strategy() -> impl Strategy<Value = DropCase> {
     let drop_at = prop_oneof![3 => Just(DropPoint::BeforeIo), 3 => prop_oneof![Just(1u32), 1u32..70000].prop_map(DropPoint::AfterPartial), 2 => Just(DropPoint::AfterEof)];
     (handle, behaviour, drop_at, 2u8..6, prop_oneof![2 => Just(0u8), 1 => 1u8..40], any::<u8>(), prop_oneof![7 => Just(false), 1 => Just(true)]).prop_map(|(handle, behaviour, drop_at, stages, stage_delay_ms, exit_code, interrupt)| {
         // construction: only behaviours that terminate once the handle's own pipe is released
-        let writes_ok = matches!(handle, Handle::StreamStdout | Handle::StreamStderr | Handle::PipeStreamStdout | Handle::PopenPlain | Handle::ExecCapture | Handle::PipeCapture | Handle::PipeJoin | Handle::ExecJoin | Handle::StreamStdoutWithStdinPipe | Handle::StreamStdoutWithStderrPipe | Handle::StreamStdinWithStdoutPipe);
+        let writes_ok = matches!(handle, Handle::StreamStdout | Handle::StreamStderr | Handle::PipeStreamStdout | Handle::PopenPlain | Handle::ExecCapture | Handle::PipeCapture | Handle::PipeJoin | Handle::ExecJoin | Handle::StreamStdoutWithStdinPipe | Handle::StreamStdoutWithStderrPipe | Handle::StreamStdinWithStdoutPipe | Handle::PipeStreamStdoutMemberErrPipe);
         let mut behaviour = behaviour;
         let mut drop_at = drop_at;
         match behaviour {
             Behaviour::WriteThenExit(_) if !writes_ok => behaviour = Behaviour::ReadToEof,
-            Behaviour::Flood if !matches!(handle, Handle::StreamStdout | Handle::StreamStderr | Handle::PipeStreamStdout | Handle::PopenPlain | Handle::StreamStdoutWithStdinPipe | Handle::StreamStdoutWithStderrPipe | Handle::StreamStdinWithStdoutPipe) => behaviour = Behaviour::ExitAfter(5),
+            Behaviour::Flood if !matches!(handle, Handle::StreamStdout | Handle::StreamStderr | Handle::PipeStreamStdout | Handle::PopenPlain | Handle::StreamStdoutWithStdinPipe | Handle::StreamStdoutWithStderrPipe | Handle::StreamStdinWithStdoutPipe | Handle::PipeStreamStdoutMemberErrPipe) => behaviour = Behaviour::ExitAfter(5),
             _ => {}
         }
         if behaviour == Behaviour::ReadToEof && matches!(handle, Handle::PopenDetachedCfg | Handle::PopenDetachCall) {
